@@ -160,6 +160,8 @@ def gen_cases(tier, seed):
         for j in range(0, len(abst), 4):
             yield {"kind": "builds", "namekind": kind, "names": names, "lo": j, "hi": min(j + 4, len(abst))}
     yield {"kind": "exotic"}
+    for i in range(120 if tier == "quick" else 1500):
+        yield {"kind": "history", "seed": seed * 1000003 + i}
     rng = random.Random(seed * 104729 + 17)
     count = 300 if tier == "quick" else 20000
     names4 = [0, 8, 16, 24]
@@ -441,6 +443,50 @@ def check_case(case):
                         nk += 1
         return {"fails": fails, "key": None, "nkeys": nk, "evals": evals,
                 "sample": {"datasets": abst, "routes": routes}}
+
+    if kind == "history":
+        # equality is a function of what the datasets contain NOW: compare, mutate one of them in place, compare again
+        from collections import Counter
+        from bounded import history as H
+        from bounded import domains as D
+        rng = random.Random(case["seed"])
+        d = D.random_dataset(rng, 5, 4, n_min=2)
+        if rng.random() < 0.5:
+            d.insert(rng.randrange(len(d) + 1), [])
+        da, db = A.mk_dataset(d), A.mk_dataset([[list(b) for b in r] for r in d])
+
+        def content(ds):
+            return Counter(tuple(frozenset((type(A.val(e)).__name__, A.val(e)) for e in b) for b in r)
+                           for r in ds.rankings)
+        evals, steps = 0, []
+        for step in range(3):
+            for x, y, what in ((da, db, "A == B"), (db, da, "B == A"), (da, da, "A == A")):
+                want = content(x) == content(y)
+                got = (x == y)
+                evals += 1
+                if bool(got) != want:
+                    fails.append({"clause": "C17.prop.history", "site": "Dataset.__eq__ after in-place mutation"
+                                  if steps else "Dataset.__eq__",
+                                  "detail": {"initial": d, "mutations_of_A": list(steps), "compared": what,
+                                             "A_now": H._current(da), "B_now": H._current(db),
+                                             "got": bool(got), "expected": want}})
+                    break
+            fresh = A.mk_dataset(H._current(da)) if any(H._current(da)) else None
+            if fresh is not None and not fails:
+                evals += 1
+                if content(fresh) == content(da) and not (da == fresh):
+                    fails.append({"clause": "C17.prop.history", "site": "Dataset.__eq__ after in-place mutation",
+                                  "detail": {"initial": d, "mutations_of_A": list(steps), "compared": "A == Dataset(A's "
+                                             "current rankings)", "A_now": H._current(da), "got": False,
+                                             "expected": True}})
+            if fails:
+                break
+            m = H._mutate(da, rng)
+            if m is None:
+                break
+            steps.append(m)
+        return {"fails": fails[:1], "key": "history|%s|%s" % (d, steps) if steps else None, "evals": evals,
+                "sample": {"initial": d, "mutations_of_A": steps}}
 
     if kind == "exotic":
         specs = []
